@@ -10,6 +10,7 @@
 import Proofs.Lemmas.Metadata
 import Proofs.Lemmas.InprocAll
 import Proofs.Lemmas.InprocTlrSrv
+import Proofs.Lemmas.InprocHdrSrv
 import Proofs.Lemmas.InprocUnaryAll
 import Proofs.Lemmas.HttpServerStream
 
@@ -73,9 +74,8 @@ theorem hinv_reachable (c1 c2 : Nat) (rs : Bool) (s : St) (h : Reachable c1 c2 r
 /-- **Header() and Trailer() are exactly the frames taken**: with a live context, in every reachable
     state the client's `Header()` holds the metadata of the (last) headers frame it has taken off the
     channel and `Trailer()` that of the trailers frame — nothing dropped, nothing altered, values in
-    order. (That the handler's header frame precedes its first data frame is the order of the
-    writes in `SendMsg`/`finish`; it is validated by the explorer on every script and by the
-    headers oracle, not proved in this revision.) -/
+    order. (That the handler's header frame precedes every other frame and carries everything the
+    handler set is `C03_headers_before_first_message`.) -/
 theorem C03_client_metadata_is_frames (c1 c2 : Nat) (rs : Bool) (s : St) (h : Reachable c1 c2 rs s)
     (hctx : s.ctx = none) : s.cHeaders = hdrOf s.respDeq ∧ s.cTrailers = tlrOf s.respDeq := by
   obtain ⟨_, _, _, hc, _⟩ := hinv_reachable c1 c2 rs s h
@@ -125,6 +125,63 @@ theorem C03_success_has_all_trailers (c1 c2 : Nat) (rs : Bool) (s : St) (h : Rea
   rw [hr] at hq
   simp at hq
   rw [← hq]; exact h1
+
+theorem hdrs_reachable (c1 c2 : Nat) (rs : Bool) (s : St) (h : Reachable c1 c2 rs s) : Base s ∧ HdrS s :=
+  reachable_induction c1 c2 rs (fun s => Base s ∧ HdrS s)
+    ⟨base_init c1 c2 rs, hdrs_init c1 c2 rs⟩
+    (fun s a s' evs hp hst => ⟨base_step s a s' evs hp.1 hst, hdrs_step s a s' evs hp.1 hp.2 hst⟩) s h
+
+/-- **Headers no later than the first message (or any later frame).** With a live context, once the
+    client has taken *any* frame other than the headers frame off the channel — a message, the
+    trailers, the final status — `Header()` holds exactly the metadata of the handler's successful
+    SetHeader / SendHeader calls, all of them, in order: the header frame is the first frame of the
+    stream and the only one of its kind, for every interleaving of handler and client. -/
+theorem C03_headers_before_first_message (c1 c2 : Nat) (rs : Bool) (s : St) (h : Reachable c1 c2 rs s)
+    (hctx : s.ctx = none) (f : Frame) (hf : f ∈ s.respDeq) (hnh : isHdr f = false) : s.cHeaders = s.hdrAll := by
+  obtain ⟨hb, hs⟩ := hdrs_reachable c1 c2 rs s h
+  have hc := (hinv_reachable c1 c2 rs s h).hc
+  rw [hc.cH hctx]
+  have hq := hb.respQ
+  have hne : s.respDeq ≠ [] := by intro he; simp [he] at hf
+  by_cases h0 : s.sState = 0
+  · obtain ⟨e1, e2, e3⟩ := hs.a1 hctx h0
+    have hret : s.sReturned = true := by
+      cases hr : s.sReturned with
+      | true => rfl
+      | false =>
+        have := hs.a5 hctx h0 hr
+        rw [hq] at this
+        simp at this; exact absurd this.1 hne
+    have hpend : nHdr (pendFrames s) = true := by
+      rcases e3 with e3 | e3
+      · rw [hq] at e3; simp at e3; exact absurd e3.1 hne
+      · exact e3
+    rw [hs.a4 hctx h0 hret hpend]
+    rw [hq] at e1; simp at e1
+    exact hdrOf_nHdr _ e1.1
+  · rcases hs.b2 hctx h0 with ⟨e1, e2⟩ | e2
+    · rw [e1]; rw [hq] at e2; simp at e2; exact hdrOf_nHdr _ e2.1
+    · rw [hq] at e2
+      exact hdrOf_hdrHead _ _ (hdrHead_prefix _ _ _ e2 hne)
+
+/-- **…and with a clean end**: when the client sees the closed, drained channel, `Header()` holds every
+    header the handler set (also when nothing at all was sent). -/
+theorem C03_success_has_all_headers (c1 c2 : Nat) (rs : Bool) (s : St) (h : Reachable c1 c2 rs s)
+    (hctx : s.ctx = none) (hr : s.resp = []) (hcl : s.respClosed = true) : s.cHeaders = s.hdrAll := by
+  obtain ⟨hb, hs⟩ := hdrs_reachable c1 c2 rs s h
+  have hc := (hinv_reachable c1 c2 rs s h).hc
+  rw [hc.cH hctx]
+  obtain ⟨hw, hret⟩ := hb.closedW hcl
+  have hq := hb.respQ
+  rw [hr, List.append_nil] at hq
+  have hp : pendFrames s = [] := by simp [pendFrames, hw]
+  by_cases h0 : s.sState = 0
+  · obtain ⟨e1, _, _⟩ := hs.a1 hctx h0
+    rw [hs.a4 hctx h0 hret (by simp [hp]), ← hq]
+    exact hdrOf_nHdr _ e1
+  · rcases hs.b2 hctx h0 with ⟨e1, e2⟩ | e2
+    · rw [e1, ← hq]; exact hdrOf_nHdr _ e2
+    · rw [← hq]; exact hdrOf_hdrHead _ _ e2
 
 /-- **Setting headers after they were sent fails** (in-process stream): once a header frame or a
     message has gone out, SetHeader and SendHeader return an error and change nothing. -/
